@@ -219,9 +219,15 @@ def check_against_plan(case, plan, resp, rt, events, strict_calls=True):
                 if err.get("message") != e.tf[0] or err.get("extensions") != e.tf[1]:
                     out.append(V("library_error_not_preserved", "expected message %r extensions %r, got %r / %r" % (
                         e.tf[0], e.tf[1], err.get("message"), err.get("extensions"))))
-            elif e.token and e.kind in ("raise", "exception_value") and e.token not in str(err.get("message")):  # not for raise_odd
-                out.append(V("error_misattributed", "error at %r does not carry the fault's token %s: %r" % (
-                    list(p), e.token, err.get("message"))))
+            elif e.token and e.kind in ("raise", "exception_value"):
+                # messages are free (an implementation may mask them), but a message that carries the
+                # unique token of ANOTHER injected fault is attributed to the wrong failure
+                msg = str(err.get("message"))
+                if e.token not in msg:
+                    other = [x for x in plan.errors if x.token and x.token != e.token and x.token in msg and tuple(x.path) != p]
+                    if other:
+                        out.append(V("error_misattributed", "error at %r carries the token of the fault at %r: %r" % (
+                            list(p), list(other[0].path), msg)))
     for q in visible_nulls(plan):
         causes = {tuple(e.path) for e in plan.errors if e.nulls == q}
         if not any(p in causes for p in got_paths):
